@@ -173,6 +173,28 @@ TypedArgBase* ArgumentContainer::findArg( const ArgumentKey& key) const
 
 
 
+/// Returns if an argument with exactly this key is defined, i.e. does not
+/// accept abbreviations of long argument names.<br>
+/// Needed by argument groups: An argument that is the exact key of an
+/// argument in one handler must not be taken as abbreviation by another
+/// handler.
+/// @param[in]  key  The short or long argument name to check.
+/// @return  \c true if an argument with exactly this key is defined.
+/// @since  x.y.z, 01.10.2026
+bool ArgumentContainer::isExactKey( const ArgumentKey& key) const
+{
+
+   for (auto const& argi : mArguments)
+   {
+      if (argi == key)
+         return true;
+   } // end for
+
+   return false;
+} // ArgumentContainer::isExactKey
+
+
+
 /// Specifies the line length to use when printing the usage.<br>
 /// Used when this container is used to store te sub-group arguments.
 /// @param[in]  useLen  The new line length to use.<br>
